@@ -571,13 +571,19 @@ theorem mem_safelyQuoteBy_cases {f : Char → Bool} {c : Char} {s : Str} (h : c 
     · subst e; exact Or.inr (Or.inr hw.1)
     · subst e; exact Or.inr (Or.inr hw.2)
   | stray =>
-    simp only [quoteTokBy, List.mem_singleton] at ht'
-    subst ht'
-    simp only [renderTok, List.mem_cons, List.not_mem_nil, or_false] at hch
-    rcases hch with e | e | e
-    · exact Or.inr (Or.inl e)
-    · subst e; exact Or.inr (Or.inr (by decide))
-    · subst e; exact Or.inr (Or.inr (by decide))
+    simp only [quoteTokBy] at ht'
+    split at ht'
+    · simp only [List.mem_singleton] at ht'
+      subst ht'
+      simp only [renderTok, List.mem_singleton] at hch
+      exact Or.inr (Or.inl hch)
+    · simp only [List.mem_singleton] at ht'
+      subst ht'
+      simp only [renderTok, List.mem_cons, List.not_mem_nil, or_false] at hch
+      rcases hch with e | e | e
+      · exact Or.inr (Or.inl e)
+      · subst e; exact Or.inr (Or.inr (by decide))
+      · subst e; exact Or.inr (Or.inr (by decide))
 
 theorem mem_safelyQuote_cases {c : Char} {s : Str} (h : c ∈ safelyQuote s) :
     quoteSafe c = true ∨ c = '%' ∨ isHexDigit c = true := by
